@@ -932,19 +932,18 @@ fn face_forward_section<T: Elt, V: Sp<T>>(s: &Section) {
             if swap == 1 && n <= 4 { continue; }
             let dot: i64 = (0..n).map(|i| i_[i] * r_[i]).sum();
             for sv in &selfs {
-                if dot == 0 { tie += 1; continue; }
-                if dot > 0 { pos += 1 } else { neg += 1 }
+                if dot == 0 { tie += 1 } else if dot > 0 { pos += 1 } else { neg += 1 }
                 let want: Vec<T> = sv.iter().map(|&v| T::fi(if dot > 0 { -v } else { v })).collect();
                 let (vs, vi, vr) = (mk(sv), mk(i_), mk(r_));
                 let inp = || json!({"self": sv, "incident": i_, "reference": r_, "reference.incident": dot});
                 if let Some(g) = s.call(&site, inp, || vs.facefwd_(vi, vr).into_elems()) {
-                    if g != want { vio(s, &site, if dot > 0 { "not-flipped-for-positive-dot" } else { "flipped-for-negative-dot" }, json!({"input": inp(), "got": jd(&g), "want": jd(&want)}), wsum(i_) + wsum(r_)); }
+                    if g != want { vio(s, &site, if dot > 0 { "not-flipped-for-positive-dot" } else if dot == 0 { "flipped-for-zero-dot(no sign to flip by)" } else { "flipped-for-negative-dot" }, json!({"input": inp(), "got": jd(&g), "want": jd(&want)}), wsum(i_) + wsum(r_)); }
                 }
                 if dot > 0 && wsum(i_) > 1 && s.wants_sample() { s.sample(json!({"type": V::NAME, "tier": T::NAME, "input": inp(), "want": jd(&want)})); }
             }
         } }
-        s.evals(pos + neg, pos + neg);
-        s.class_n("reference.incident > 0 (flip)", pos); s.class_n("reference.incident < 0 (keep)", neg); s.class_n("reference.incident = 0 (not pinned, not asserted)", tie);
+        s.evals(pos + neg + tie, pos + neg + tie);
+        s.class_n("reference.incident > 0 (flip)", pos); s.class_n("reference.incident < 0 (keep)", neg); s.class_n("reference.incident = 0 (no sign: keep)", tie);
     });
     s.meta(&format!("{}<{}>", V::NAME, T::NAME), json!({"incident_vectors": left.len(), "reference_vectors": right.len(), "self_vectors": selfs.len()}));
 }
@@ -1642,8 +1641,8 @@ fn main() {
         each_spatial!(V => { angle_float::<f64, V<f64>>(s, th); angle_float::<f32, V<f32>>(s, th); });
     });
     rep.section("face_forward flips by the sign of reference.incident",
-        "incident, reference in {-1,0,1}^N for N <= 4, <=2-lane +-1 vectors against companions (both roles) for N >= 8, three self vectors, tiers X, f64, f32: -self when reference.incident > 0, self when < 0, exact comparison; the tie (= 0) is counted but not asserted; non-trivial: all asserted", true, false, |s| {
-        s.require_classes(&["reference.incident > 0 (flip)", "reference.incident < 0 (keep)", "reference.incident = 0 (not pinned, not asserted)"]);
+        "incident, reference in {-1,0,1}^N for N <= 4, <=2-lane +-1 vectors against companions (both roles) for N >= 8, three self vectors, tiers X, f64, f32: -self when reference.incident > 0, self when < 0, exact comparison; self when = 0 (a zero product has no sign to flip by; this is the behaviour on disk and the reading adopted after seed S11h); non-trivial: all", true, false, |s| {
+        s.require_classes(&["reference.incident > 0 (flip)", "reference.incident < 0 (keep)", "reference.incident = 0 (no sign: keep)"]);
         each_spatial!(V => { face_forward_section::<X, V<X>>(s); face_forward_section::<f64, V<f64>>(s); face_forward_section::<f32, V<f32>>(s); });
     });
 
